@@ -46,7 +46,7 @@ Proof. exact Props.C03.C03_unannotated_nothing. Qed.
 Print Assumptions Props.C03.C03_unannotated_nothing.
 Goal forall (uc : unicode) (tstr : str -> option ty) (T : list str) (x : item) (it : ritem),
   parse_leaf uc tstr T x = Ok it ->
-  Proofs.C03.leaf_kind_ok x it /\ original (item_id it) = replace_sub (lit "r#") [] (leaf_ident x).
+  c03_leaf_kind_ok x it /\ original (item_id it) = replace_sub (lit "r#") [] (leaf_ident x).
 Proof. exact Props.C03.C03_item_identity. Qed.
 Print Assumptions Props.C03.C03_item_identity.
 Goal forall (uc : unicode) (tstr : str -> option ty) (T : list str) attrs ident gens (l : list field) (s : rstruct),
